@@ -819,3 +819,32 @@ contract(
     note="integer forms (x, y, z, t), (x, z) and (x,): every negative entry wraps against width / height, "
          "column forms leave the rows open (None)",
 )
+
+
+_AREA_SIGS = [dict(self=_table(), coord=TupleOf(Int, Int, Int, Int)),
+              dict(self=_table(), coord=TupleOf(Int, Int)),
+              dict(self=_table(), coord=TupleOf(Int))]
+
+contract(
+    "odfdo.table:Table._translate_table_coordinates",
+    sig=_AREA_SIGS,
+    requires=lambda a: S.And(inv_vault(a.self, "rows"), inv_vault(a.self, "cols")),
+    ensures=[Clause("dispatch-area-negative-from-end", {"C19"},
+                    lambda a, r, p: _area4(a, r, p) if len(a.coord) == 4 else _area_rows(a, r, p))],
+    result=TupleOf(OptInt, OptInt, OptInt, OptInt),
+    concretize=concretize_vault, gen=gen_vault, observer=True,
+    inline={"odfdo.table:Table._translate_table_coordinates_list"},
+    note="tuple forms reach the list translation (callee inlined: its result mixes None and int per path)",
+)
+
+contract(
+    "odfdo.table:Table._translate_column_coordinates",
+    sig=_AREA_SIGS,
+    requires=lambda a: S.And(inv_vault(a.self, "rows"), inv_vault(a.self, "cols")),
+    ensures=[Clause("dispatch-column-area-negative-from-end", {"C19"},
+                    lambda a, r, p: _area4(a, r, p) if len(a.coord) == 4 else _area_cols(a, r, p))],
+    result=TupleOf(OptInt, OptInt, OptInt, OptInt),
+    concretize=concretize_vault, gen=gen_vault, observer=True,
+    inline={"odfdo.table:Table._translate_column_coordinates_list"},
+    note="tuple forms reach the list translation (callee inlined: its result mixes None and int per path)",
+)
